@@ -764,16 +764,33 @@ func nmove(wdt float64, subd int, zeit int, g *GlobalVarsMain, l *NitroSharedVar
 					l.KONV[z0] = (Carray[z]*g.Q1[z] - Carray[z]*g.Q1[z-1]) / g.DZ.Num
 				}
 			} else {
-				l.KONV[z0] = Carray[z] * g.Q1[z] / g.DZ.Num
+				if z == g.DRAIDEP {
+					l.KONV[z0] = (Carray[z]*g.Q1[z] + Carray[z]*g.QDRAIN) / g.DZ.Num
+				} else {
+					l.KONV[z0] = Carray[z] * g.Q1[z] / g.DZ.Num
+				}
 			}
 		} else if g.Q1[z] < 0 && g.Q1[z-1] < 0 {
+			// the drain takes N from its layer also when the net flux through the lower boundary is upward
 			if z > 1 {
-				l.KONV[z0] = (Carray[z+1]*g.Q1[z] - Carray[z]*g.Q1[z-1]) / g.DZ.Num
+				if z == g.DRAIDEP {
+					l.KONV[z0] = (Carray[z+1]*g.Q1[z] + Carray[z]*g.QDRAIN - Carray[z]*g.Q1[z-1]) / g.DZ.Num
+				} else {
+					l.KONV[z0] = (Carray[z+1]*g.Q1[z] - Carray[z]*g.Q1[z-1]) / g.DZ.Num
+				}
 			} else {
-				l.KONV[z0] = Carray[z+1] * g.Q1[z] / g.DZ.Num
+				if z == g.DRAIDEP {
+					l.KONV[z0] = (Carray[z+1]*g.Q1[z] + Carray[z]*g.QDRAIN) / g.DZ.Num
+				} else {
+					l.KONV[z0] = Carray[z+1] * g.Q1[z] / g.DZ.Num
+				}
 			}
 		} else if g.Q1[z] < 0 && g.Q1[z-1] >= 0 {
-			l.KONV[z0] = (Carray[z+1]*g.Q1[z] - Carray[z-1]*g.Q1[z-1]) / g.DZ.Num
+			if z == g.DRAIDEP {
+				l.KONV[z0] = (Carray[z+1]*g.Q1[z] + Carray[z]*g.QDRAIN - Carray[z-1]*g.Q1[z-1]) / g.DZ.Num
+			} else {
+				l.KONV[z0] = (Carray[z+1]*g.Q1[z] - Carray[z-1]*g.Q1[z-1]) / g.DZ.Num
+			}
 		}
 	}
 	g.DRAINLOSS = g.DRAINLOSS + g.QDRAIN*Carray[g.DRAIDEP]/g.DZ.Num*100*g.DZ.Num
